@@ -3,6 +3,7 @@ package worlds
 import (
 	"errors"
 	"fmt"
+	"io"
 	"strings"
 	"time"
 
@@ -57,9 +58,41 @@ type c15Run struct {
 	cond      zerolog.Level
 	trig      zerolog.Level
 	nLine     int
+	// retarget: the owner assigns the exported Writer field between operations (single-task
+	// runs); every line goes to the destination configured when it leaves the writer
+	retarget bool
+	dstObjs  []io.Writer
+	// miscount: the destination takes every line but reports a wrong count with a nil error
+	miscount int
+	// dstClosed: somebody closed the destination (it is an io.Closer that refuses writes
+	// afterwards); closing a TriggerLevelWriter is not a reason to
+	dstClosed bool
 }
 
-type c15Dst struct{ r *c15Run }
+type c15Dst struct {
+	r  *c15Run
+	id int
+}
+
+func (d c15Dst) Close() error {
+	if !zsim.Dying() {
+		d.r.dstClosed = true
+	}
+	return nil
+}
+
+// count is what the destination reports for an accepted line of n bytes.
+func (d c15Dst) count(n int) int {
+	switch d.r.miscount {
+	case 1:
+		return 0
+	case 2:
+		return n - 1
+	case 3:
+		return n + 7
+	}
+	return n
+}
 
 func (d c15Dst) record(l zerolog.Level, p []byte) error {
 	r := d.r
@@ -79,9 +112,15 @@ func (d c15Dst) record(l zerolog.Level, p []byte) error {
 	if len(r.cur) == 0 {
 		zsim.Fail("C15.unexpected_write", "destination written while no WriteLevel/Trigger/Close call is in progress: %s", clip(p, 80))
 	}
+	if r.dstClosed {
+		return errors.New("destination is closed")
+	}
 	ent := string(p) + "|"
 	if r.levelDst {
 		ent = fmt.Sprintf("%d:", int8(l)) + ent
+	}
+	if r.retarget {
+		ent = fmt.Sprintf("D%d>", d.id) + ent
 	}
 	for _, op := range r.cur {
 		op.out += ent
@@ -105,7 +144,7 @@ func (d c15LevelDst) Write(p []byte) (int, error) {
 			return 0, err
 		}
 	}
-	return len(p), nil
+	return d.count(len(p)), nil
 }
 
 func (d c15LevelDst) WriteLevel(l zerolog.Level, p []byte) (int, error) {
@@ -114,7 +153,7 @@ func (d c15LevelDst) WriteLevel(l zerolog.Level, p []byte) (int, error) {
 			return 0, err
 		}
 	}
-	return len(p), nil
+	return d.count(len(p)), nil
 }
 
 type c15PlainDst struct{ c15Dst }
@@ -125,7 +164,7 @@ func (d c15PlainDst) Write(p []byte) (int, error) {
 			return 0, err
 		}
 	}
-	return len(p), nil
+	return d.count(len(p)), nil
 }
 
 // ---- reference model ----
@@ -135,6 +174,7 @@ type tState struct {
 	held      string // serialized held lines
 	heldN     int
 	pos       int // how much of the destination's global sequence is explained so far
+	dst       int // which destination object the Writer field points to
 }
 
 func (r *c15Run) fmtLine(level int8, line string) string {
@@ -147,8 +187,25 @@ func (r *c15Run) fmtLine(level int8, line string) string {
 // step is the specification: what the destination receives, as a consequence of one
 // operation, before that operation returns (out = the n lines, serialized).
 func (r *c15Run) step(st tState, in tIn) (tState, string, int) {
+	ns, out, n := r.step0(st, in)
+	if r.retarget && n > 0 {
+		// the lines leave through the destination configured now
+		parts := strings.SplitAfter(out, "|")
+		out = ""
+		for _, p := range parts {
+			if p != "" {
+				out += fmt.Sprintf("D%d>", ns.dst) + p
+			}
+		}
+	}
+	return ns, out, n
+}
+
+func (r *c15Run) step0(st tState, in tIn) (tState, string, int) {
 	out, n := "", 0
 	switch in.Kind {
+	case 4:
+		st.dst = int(in.Level)
 	case 0:
 		l := zerolog.Level(in.Level)
 		if !st.triggered && l >= r.trig {
@@ -223,6 +280,9 @@ func (r *c15Run) doOp(w *zerolog.TriggerLevelWriter, lg *zerolog.Logger, inst in
 			lg.WithLevel(zerolog.Level(in.Level)).Str("l", strings.TrimSuffix(in.Line, "\n")).Msg("")
 		} else {
 			n, err := w.WriteLevel(zerolog.Level(in.Level), []byte(in.Line))
+			if r.miscount != 0 {
+				n = len(in.Line) // (whatever count the destination made up may be passed on)
+			}
 			if (n != len(in.Line) || err != nil) && !zsim.Dying() && !r.faulty {
 				zsim.Fail("C15.result", "WriteLevel returned (%d,%v) for a %d-byte line", n, err, len(in.Line))
 			}
@@ -231,6 +291,8 @@ func (r *c15Run) doOp(w *zerolog.TriggerLevelWriter, lg *zerolog.Logger, inst in
 		w.Trigger()
 	case 2:
 		w.Close()
+	case 4:
+		w.Writer = r.dstObjs[in.Level]
 	}
 	if zsim.Dying() {
 		return
@@ -312,11 +374,21 @@ func (c15World) Run(prop string, ch *zsim.Choices, trace bool) *RunResult {
 		var dst interface {
 			Write([]byte) (int, error)
 		}
-		if r.levelDst {
-			dst = c15LevelDst{c15Dst{r}}
-		} else {
-			dst = c15PlainDst{c15Dst{r}}
+		if !r.faulty {
+			r.miscount = ch.Weighted(6, 1, 1, 1)
+			if nTasks == 1 && ch.Chance(1, 5) {
+				r.retarget = true
+				zsim.Probe("writer_field_reassigned")
+			}
 		}
+		mk := func(id int) io.Writer {
+			if r.levelDst {
+				return c15LevelDst{c15Dst{r, id}}
+			}
+			return c15PlainDst{c15Dst{r, id}}
+		}
+		r.dstObjs = []io.Writer{mk(0), mk(1)}
+		dst = r.dstObjs[0]
 		for inst := 0; inst < nInst; inst++ {
 			r.hist = append(r.hist, nil)
 			r.gstart = append(r.gstart, len(r.global))
@@ -331,7 +403,13 @@ func (c15World) Run(prop string, ch *zsim.Choices, trace bool) *RunResult {
 					for i := 0; i < per; i++ {
 						var in tIn
 						via := false
-						switch ch.Weighted(14, 2, 1) {
+						wRe := 0
+						if r.retarget {
+							wRe = 2
+						}
+						switch ch.Weighted(14, 2, 1, wRe) {
+						case 3:
+							in = tIn{Kind: 4, Level: int8(ch.Intn(2))}
 						case 0:
 							lv := c15LevelsAll[ch.Intn(len(c15LevelsAll))]
 							if ch.Chance(1, 2) {
@@ -437,6 +515,8 @@ func descIn(in tIn) string {
 		return "Trigger()"
 	case 3:
 		return "(end of history: nothing else arrived)"
+	case 4:
+		return fmt.Sprintf("Writer = destination %d", in.Level)
 	}
 	return "Close()"
 }
